@@ -6,10 +6,12 @@ def run_case(c):
     nodes = {}
     if c.get("embed"):
         # the start node is the middle child of a root that has other children
-        top = AnyNode(lbl=1000)
-        AnyNode(parent=top, lbl=1001)
+        import implutil
+        A = implutil.adv(AnyNode)
+        top = A(lbl=1000)
+        A(parent=top, lbl=1001)
         start = build(c["tree"], AnyNode, parent=top, nodes=nodes)
-        AnyNode(parent=AnyNode(parent=top, lbl=1002), lbl=1003)
+        A(parent=A(parent=top, lbl=1002), lbl=1003)
         whole = top
     else:
         start = build(c["tree"], AnyNode, nodes=nodes)
